@@ -10,7 +10,7 @@ from . import common
 def hx(s):
     if isinstance(s, str):
         s = s.encode("utf-8", "surrogateescape")
-    return binascii.hexlify(s).decode()
+    return binascii.hexlify(s).decode() or "e"
 
 
 def unhx(h):
